@@ -30,7 +30,8 @@ LOCALS = ["a", "b", "c", "x", "type", "nil", "lang", "é1", "_z.-9"]
 HOSTILE_LOCALS = ["a b", "1a", "xmlns", "a:b"]
 PREFIXES = [None, "", "p", "q", "ns0", "ns1", "ns2", "ns3", "ns5", "xsi", "xs", "soap"]
 HOSTILE_PREFIXES = ["xml", "xmlns", "a b"]
-TEXT_ALPHA = ["a", "b", "z", " ", "&", "<", ">", '"', "'", "]]>", "\n", "\t", "é", "\U0001F600", "&amp;", "{", ":", "1"]
+TEXT_ALPHA = ["a", "b", "z", " ", "&", "<", ">", '"', "'", "]]>", "\n", "\t", "é", "\U0001F600", "&amp;", "{", ":", "1",
+              "\r", "\r\n", "\x85", "\u2028", "&lt", "&#13;", "&x;", "]]", "a]]>b"]
 DATATYPE_CLARK = ["{%s}int" % XS, "{%s}string" % XS, "{%s}QName" % XS]
 
 # guard clause -> (Coq predicate, narrow class of the known finding); priority order
@@ -76,8 +77,6 @@ class Gen:
             k = r.random()
             if k < 0.01:
                 s += r.choice(["\x01", "\ufffe", "\x0b"])
-            elif k < 0.03:
-                s += r.choice(["\r", "\r\n"]) + "x"
         return s
 
     def atom(self, pq=0.15):
@@ -370,6 +369,7 @@ def coq_multi(tag, preds, terms, shard=40, timeout=900):
     """Evaluate every predicate of `preds` (wcase -> bool) on every case inside Coq;
     returns {pred: sorted indices where it is false}.  Same definitions as the theorems."""
     os.makedirs(CORR, exist_ok=True)
+    tag = f"{tag}_{os.getpid()}"          # two runs of this check must not share case files
     shards = [terms[i:i + shard] for i in range(0, len(terms), shard)]
     paths = []
     for k, sh in enumerate(shards):
